@@ -246,7 +246,8 @@ REFUSED = [("id-101", ("v2", 101, 0, b"nn")), ("id-150", ("v2", 150, 0, b"nn")),
 def refused_case(args) -> Dict[str, Any]:
     """connection requests the manager refuses (ids outside 1..100 on either side, an id or a name that is taken): no acknowledgement
     to the requester, no copy to the logger - alone, after requests the connection sent before, and followed by a CONNECT"""
-    tc, label, before, follow = args
+    tc, label, before, follow = args[:4]
+    props = args[4] if len(args) > 4 else ("C19", "C03", "C06")
     from .. import lock, mmx
 
     req = dict(REFUSED)[label]
@@ -274,8 +275,8 @@ def refused_case(args) -> Dict[str, Any]:
             fr += hub.frame(tc, P.MT_CONNECT, P.p_connect(0, 0), src_mod_id=mid)
         env.apply(hub.ev_send("N", fr))
         env.settle()
-        probs += [dict(p) for p in env.problems if p["prop"] in ("C19", "C03", "C06")]
-        if not env.dead:
+        probs += [dict(p) for p in env.problems if p["prop"] in props]
+        if not env.dead and "C19" in props:
             got = sum(1 for k in env.received["N"] if k[0] == "ack") - acks_before
             cop = sum(1 for k in env.received["G"] if k[0] == "ack") - copies_before
             if got or cop:
